@@ -1,5 +1,6 @@
 use crate::engine::Engine;
 pub mod c01;
+pub mod readfaults;
 pub mod c02;
 pub mod c03;
 pub mod c04;
